@@ -302,6 +302,7 @@ func init() {
 		c.rule("C12.esc", "a slice or map loaded from a guarded field is used only inside the critical section (or cloned): it is not returned to unlocked callers nor used after the lock is released, because writers append/delete in place")
 		c.rule("C12.whole", "the fields exempt from C12.esc because their backing store is replaced wholesale (state names, schema, machTime) are never written in place (no element store, map update or delete outside constructors)")
 		c.checkEscapes(la, "C12.esc")
+		c.rulesR3pub()
 		c.floor("C12.esc", 40)
 		c.floor("C12.whole", 5)
 		c.note("lock analysis contexts: %d", len(la.sums))
